@@ -118,8 +118,8 @@ func c01DepBeforeCmd(c *Check, a *Anchors) {
 	c.Floor("dep-before-cmd", n, 2)
 	// the dependency runner must actually be invoked by the body
 	found := false
-	for _, call := range callsIn(body, false) {
-		if a.is(callee(body.Info(), call), a.DepRunner) {
+	for _, l := range f.Labels { // includes the calls of package helpers the flow analysed as part of the body
+		if l == "deps" {
 			found = true
 		}
 	}
